@@ -541,7 +541,12 @@ pub fn faulted<T>(
                     w.parties[p].mems[g].group = Some(g0);
                     let prng_after = w.parties[p].ctx.get_prng();
                     w.parties[p].ctx.set_prng(r0.clone());
-                    let r_ref = call(w)?;
+                    // (what the reference execution seals is a repetition by construction: keep it out of the record)
+                    let kept = crate::crypto::rec_take_events();
+                    let r_ref = call(w);
+                    let _ = crate::crypto::rec_take_events();
+                    crate::crypto::rec_put_events(kept);
+                    let r_ref = r_ref?;
                     let reference = w.parties[p].mems[g].group.as_ref().and_then(|x| h1(x).ok());
                     w.parties[p].mems[g].group = keep;
                     w.parties[p].ctx.set_prng(prng_after);
@@ -567,6 +572,11 @@ pub fn faulted<T>(
         }
         // a fault fired in this attempt
         w.stats.fault(kind);
+        // what the failed attempt sealed never left the member: it is not part of the recorded crypto history (the
+        // repeated attempt starts from the same PRNG state and may legitimately derive the same key and nonce)
+        if r.is_err() {
+            let _ = crate::crypto::rec_take_events();
+        }
         let site = log
             .get(plan[0] as usize)
             .copied()
